@@ -236,6 +236,13 @@ def main(argv):
     else:
         ctx = multiprocessing.get_context("fork")
         pool = ctx.Pool(min(args.jobs, len(jobs)))
+        import signal
+
+        def _term(signum, frame):
+            # a killed run must not leave orphaned workers behind
+            pool.terminate()
+            os._exit(143)
+        signal.signal(signal.SIGTERM, _term)
         it = pool.imap_unordered(_worker, jobs)
     errors = []
     for r in it:
